@@ -77,6 +77,31 @@ fn dispatch(req: &J) -> J {
         "merge_batch" => ops::merge_batch(req),
         "json" => ops::json_roundtrip(req),
         "ds" => ds::handle(req),
+        "batch" => {
+            let empty = Vec::new();
+            let subs = req.get("reqs").and_then(J::as_array).unwrap_or(&empty);
+            let mut results = Vec::with_capacity(subs.len());
+            for sub in subs {
+                if let Ok(mut g) = LAST_PANIC.lock() {
+                    *g = None;
+                }
+                let r = std::panic::catch_unwind(std::panic::AssertUnwindSafe(|| dispatch(sub)));
+                results.push(match r {
+                    Ok(v) => v,
+                    Err(_) => {
+                        // a monitor may have been left installed by the panicking request
+                        let _ = storage_layout_extractor::verif::uninstall();
+                        let (msg, file, line) = LAST_PANIC
+                            .lock()
+                            .ok()
+                            .and_then(|mut g| g.take())
+                            .unwrap_or_else(|| ("unknown".into(), "?".into(), 0));
+                        json!({"class": "panic", "msg": msg, "file": file, "line": line})
+                    }
+                });
+            }
+            json!({"class": "ok", "results": results})
+        }
         "ping" => json!({"class": "ok", "shim": shim::present(), "debug_assertions": cfg!(debug_assertions)}),
         "crash" => {
             // self-test hooks for the pool: deliberate panic / abort / stack overflow
